@@ -33,10 +33,10 @@ def run(ctx):
     ctx.rule('C11.d-all-present-shortcut', 'decode_begin yields None exactly when all originals were received and decode then returns the untouched result')
     for cfg in cfgs:
         facts = ctx.facts(cfg)
-        add_effects(ctx, facts, cfg)
-        decoder_inputs(ctx, facts, cfg)
-        c12.accessors(ctx, facts, cfg)
-        shortcut(ctx, facts, cfg)
+        ctx.guard('C11.analysable', add_effects, ctx, facts, cfg)
+        ctx.guard('C11.analysable', decoder_inputs, ctx, facts, cfg)
+        ctx.guard('C11.analysable', c12.accessors, ctx, facts, cfg)
+        ctx.guard('C11.analysable', shortcut, ctx, facts, cfg)
 
 
 def add_effects(ctx, facts, cfg):
